@@ -47,6 +47,8 @@ mod extra;
 mod movekern;
 #[path = "../c03_prog.rs"]
 mod prog;
+#[path = "../c03_loadkern.rs"]
+mod loadkern;
 
 extern "C" {
     fn FT_MulFix(a: c_long, b: c_long) -> c_long;
@@ -575,6 +577,7 @@ fn run(cfg: &Config, s: &mut Session) {
         Ok("extra") => return extra::run(cfg, s),
         Ok("movekern") => return movekern::run(cfg, s),
         Ok("prog") => return prog::run(cfg, s),
+        Ok("loadkern") => return loadkern::run(cfg, s),
         _ => {}
     }
     kernels(cfg, s);
@@ -582,6 +585,7 @@ fn run(cfg: &Config, s: &mut Session) {
     bytecode::run(cfg, s);
     movekern::run(cfg, s);
     prog::run(cfg, s);
+    loadkern::run(cfg, s);
     synth::run(cfg, s);
     ttfuzz::run(cfg, s);
     ttedge::run(cfg, s);
